@@ -372,12 +372,15 @@ fn parse_check_line(mut line: &str) -> anyhow::Result<ParsedCheckLine> {
     // from the --tag flag.
     let hash_hex;
     let file_str;
-    if let Some((left, right)) = split_untagged_check_line(line_after_slash) {
-        hash_hex = left;
-        file_str = right;
-    } else if let Some((left, right)) = split_tagged_check_line(line_after_slash) {
+    // Try the tagged form first. A tagged line whose filepath contains two consecutive spaces also
+    // splits as an untagged line (with a bogus hash field), but an untagged line can never start
+    // with "BLAKE3 (", because it starts with hex digits.
+    if let Some((left, right)) = split_tagged_check_line(line_after_slash) {
         file_str = left;
         hash_hex = right;
+    } else if let Some((left, right)) = split_untagged_check_line(line_after_slash) {
+        hash_hex = left;
+        file_str = right;
     } else {
         bail!("Invalid check line format");
     }
